@@ -70,8 +70,9 @@ def _check_cli(cases):
     written = None
     for c in cases:
         if written is None:
-            mat.write_text(paths["FILE1"], c["files"][0])
-            mat.write_text(paths["FILE2"], c["files"][1], row_order="reverse")
+            from harness.dsreplay import with_extra
+            mat.write_text(paths["FILE1"], with_extra(c["files"][0]))
+            mat.write_text(paths["FILE2"], with_extra(c["files"][1]), row_order="reverse")
             mat.write_text(paths["CLIM"], c["clim"])
             mat.write_text(paths["CLIM2"], c["clim2"])
             written = True
